@@ -48,6 +48,115 @@ theorem geomed_optimal {ι : Type*} (s : Finset ι) (d : ι → E) (z w : E) (ε
     linarith
   linarith
 
+/-! ### Huber location (aggregation `("huber", τ)`, `arim.im.huber`)
+
+`_huber_iter` replaces the iterate `z` by the weighted mean of the samples with weights `w_i = min(1, τ/‖z − d_i‖)`;
+`huber_m_estimate` iterates until the update is below `xtol`. -/
+
+/-- Huber's loss of a distance `r` -/
+noncomputable def huberRho (τ r : ℝ) : ℝ := if r ≤ τ then r ^ 2 / 2 else τ * r - τ ^ 2 / 2
+
+/-- the weight of `_huber_iter`: `min(1, τ / r)` -/
+noncomputable def huberW (τ r : ℝ) : ℝ := min 1 (τ / r)
+
+/-- `ψ(u) = w(‖u‖) · u`, the gradient of `u ↦ ρ_τ(‖u‖)` -/
+noncomputable def huberPsi (τ : ℝ) (u : E) : E := huberW τ ‖u‖ • u
+
+theorem huberPsi_small (τ : ℝ) (u : E) (h : ‖u‖ ≤ τ) : huberPsi τ u = u := by
+  unfold huberPsi huberW
+  rcases eq_or_ne u 0 with rfl | hu
+  · simp
+  · have hpos : 0 < ‖u‖ := norm_pos_iff.mpr hu
+    rw [min_eq_left ((one_le_div hpos).mpr h), one_smul]
+
+theorem huberPsi_large (τ : ℝ) (u : E) (h : τ < ‖u‖) (hτ : 0 ≤ τ) : huberPsi τ u = (τ / ‖u‖) • u := by
+  unfold huberPsi huberW
+  have hpos : 0 < ‖u‖ := lt_of_le_of_lt hτ h
+  rw [min_eq_right ((div_le_one hpos).mpr h.le)]
+
+/-- **subgradient inequality of Huber's loss** (convexity, no calculus) -/
+theorem huber_subgradient (τ : ℝ) (hτ : 0 ≤ τ) (u v : E) :
+    huberRho τ ‖u‖ + ⟪huberPsi τ u, v - u⟫ ≤ huberRho τ ‖v‖ := by
+  have hcs : ⟪u, v⟫ ≤ ‖u‖ * ‖v‖ := real_inner_le_norm u v
+  have hnu := norm_nonneg u
+  have hnv := norm_nonneg v
+  by_cases hu : ‖u‖ ≤ τ
+  · rw [huberPsi_small τ u hu, inner_sub_right, real_inner_self_eq_norm_sq]
+    simp only [huberRho, if_pos hu]
+    by_cases hv : ‖v‖ ≤ τ
+    · rw [if_pos hv]
+      have h2 : 0 ≤ ‖u - v‖ ^ 2 := sq_nonneg _
+      rw [norm_sub_sq_real] at h2
+      nlinarith
+    · rw [if_neg hv]
+      push_neg at hv
+      nlinarith [mul_nonneg (sub_nonneg.mpr hu) (sub_nonneg.mpr hv.le)]
+  · push_neg at hu
+    have hpos : 0 < ‖u‖ := lt_of_le_of_lt hτ hu
+    rw [huberPsi_large τ u hu hτ, inner_smul_left, inner_sub_right, real_inner_self_eq_norm_sq]
+    simp only [huberRho, if_neg (not_le.mpr hu), RCLike.conj_to_real]
+    have h1 : τ / ‖u‖ * (⟪u, v⟫ - ‖u‖ ^ 2) ≤ τ * ‖v‖ - τ * ‖u‖ := by
+      have : τ / ‖u‖ * (⟪u, v⟫ - ‖u‖ ^ 2) = τ * (⟪u, v⟫ / ‖u‖) - τ * ‖u‖ := by
+        field_simp
+      rw [this]
+      have : ⟪u, v⟫ / ‖u‖ ≤ ‖v‖ := by
+        rw [div_le_iff₀ hpos]; linarith [mul_comm ‖u‖ ‖v‖]
+      nlinarith
+    by_cases hv : ‖v‖ ≤ τ
+    · rw [if_pos hv]
+      nlinarith [sq_nonneg (‖v‖ - τ)]
+    · rw [if_neg hv]
+      linarith
+
+/-- **Huber location certificate.** If the sum of the `ψ`-scores at `z` has norm at most `ε` (a fixed point of
+`_huber_iter` has `ε = 0`, `huber_fixed_point_iff`), then `z` minimises the Huber objective `Σ ρ_τ(‖· − d_i‖)` up to
+`ε‖w − z‖`: the value returned is the Huber location of the delayed samples. -/
+theorem huber_optimal {ι : Type*} (s : Finset ι) (d : ι → E) (τ : ℝ) (hτ : 0 ≤ τ) (z w : E) (ε : ℝ)
+    (hgrad : ‖∑ i ∈ s, huberPsi τ (z - d i)‖ ≤ ε) :
+    ∑ i ∈ s, huberRho τ ‖z - d i‖ ≤ ∑ i ∈ s, huberRho τ ‖w - d i‖ + ε * ‖w - z‖ := by
+  have hsum : ∑ i ∈ s, (huberRho τ ‖z - d i‖ + ⟪huberPsi τ (z - d i), w - z⟫) ≤ ∑ i ∈ s, huberRho τ ‖w - d i‖ := by
+    refine Finset.sum_le_sum (fun i _ => ?_)
+    have := huber_subgradient τ hτ (z - d i) (w - d i)
+    rwa [show w - d i - (z - d i) = w - z by abel] at this
+  rw [Finset.sum_add_distrib, ← sum_inner] at hsum
+  have hcs : -(ε * ‖w - z‖) ≤ ⟪∑ i ∈ s, huberPsi τ (z - d i), w - z⟫ := by
+    have := abs_real_inner_le_norm (∑ i ∈ s, huberPsi τ (z - d i)) (w - z)
+    have h3 : ‖∑ i ∈ s, huberPsi τ (z - d i)‖ * ‖w - z‖ ≤ ε * ‖w - z‖ :=
+      mul_le_mul_of_nonneg_right hgrad (norm_nonneg _)
+    have := neg_abs_le (⟪∑ i ∈ s, huberPsi τ (z - d i), w - z⟫)
+    linarith
+  linarith
+
+/-- one step of `_huber_iter` from the iterate `z`: the weighted mean of the samples -/
+noncomputable def huberIter {ι : Type*} (s : Finset ι) (d : ι → E) (τ : ℝ) (z : E) : E :=
+  (∑ i ∈ s, huberW τ ‖z - d i‖)⁻¹ • ∑ i ∈ s, huberW τ ‖z - d i‖ • d i
+
+/-- **fixed points of the reweighting iteration are exactly the zeros of the score**: `_huber_iter(z) = z` iff
+`Σ ψ(z − d_i) = 0` (when the weights do not sum to zero) -/
+theorem huber_fixed_point_iff {ι : Type*} (s : Finset ι) (d : ι → E) (τ : ℝ) (z : E)
+    (hW : ∑ i ∈ s, huberW τ ‖z - d i‖ ≠ 0) :
+    huberIter s d τ z = z ↔ ∑ i ∈ s, huberPsi τ (z - d i) = 0 := by
+  unfold huberIter huberPsi
+  have hexp : ∑ i ∈ s, huberW τ ‖z - d i‖ • (z - d i)
+      = (∑ i ∈ s, huberW τ ‖z - d i‖) • z - ∑ i ∈ s, huberW τ ‖z - d i‖ • d i := by
+    simp only [smul_sub, Finset.sum_sub_distrib, Finset.sum_smul]
+  rw [hexp, sub_eq_zero]
+  generalize (∑ i ∈ s, huberW τ ‖z - d i‖) = W at hW ⊢
+  generalize (∑ i ∈ s, huberW τ ‖z - d i‖ • d i) = S
+  constructor
+  · intro h
+    rw [← h, smul_smul, mul_inv_cancel₀ hW, one_smul]
+  · intro h
+    rw [← h, smul_smul, inv_mul_cancel₀ hW, one_smul]
+
+/-- a fixed point of `_huber_iter` is *the* Huber location: it minimises the objective -/
+theorem huber_fixed_point_optimal {ι : Type*} (s : Finset ι) (d : ι → E) (τ : ℝ) (hτ : 0 ≤ τ) (z w : E)
+    (hW : ∑ i ∈ s, huberW τ ‖z - d i‖ ≠ 0) (hfix : huberIter s d τ z = z) :
+    ∑ i ∈ s, huberRho τ ‖z - d i‖ ≤ ∑ i ∈ s, huberRho τ ‖w - d i‖ := by
+  have h0 := (huber_fixed_point_iff s d τ z hW).mp hfix
+  have := huber_optimal s d τ hτ z w 0 (by rw [h0, norm_zero])
+  simpa using this
+
 /-- **Dispatcher table.** With per-element amplitudes exactly mean × {nearest, linear} is
 served; without amplitudes mean × {nearest, linear, Lanczos}, median × {nearest, Lanczos} and
 Huber × Lanczos (the robust ones for complex128 data only); everything else is an error. -/
